@@ -542,7 +542,12 @@ func runNego(s negoScn, rawScn json.RawMessage, pk *hlib.PKI, certs map[string]t
 		if s.Edit != "" {
 			// the caller builds the hello, edits an extension in uconn.Extensions, then calls Handshake (which
 			// re-marshals): what is on the wire is the edited offer, and that is what the server's choice is held against
-			if err := u.BuildHandshakeState(); err != nil {
+			build := u.BuildHandshakeState
+			if s.Edit == "build-nosession" {
+				// the two-step build: first without loading a session, then (in Handshake) the complete build
+				build = u.BuildHandshakeStateWithoutSession
+			}
+			if err := build(); err != nil {
 				return err
 			}
 			for _, e := range u.Extensions {
